@@ -375,7 +375,7 @@ def check_footer(ctx, ht, rule, select=lambda f: True):
         p, child = parent(call), call
         while p is not None and p is not f.node:
             if isinstance(p, ast.If):
-                gt = FT.gate_truth(p.test, True)
+                gt = FT.gate_truth(p.test, True, resolve)
                 if gt is not None:
                     encl_gate = gt if _in(child, p.body) else (not gt)
             child, p = p, parent(p)
@@ -394,7 +394,8 @@ def check_footer(ctx, ht, rule, select=lambda f: True):
             if isinstance(lp, ast.For):
                 for other in ast.walk(lp):
                     if isinstance(other, ast.Call) and other is not call and isinstance(other.func, ast.Attribute) and \
-                            other.func.attr == 'write' and U(other.func.value) == U(call.func.value) and other.args:
+                            other.func.attr == 'write' and U(other.func.value) == U(call.func.value) and other.args and \
+                            not _exclusive(call, other, lp):
                         ov = FT.bytelen(other.args[0], FA, resolve, g)
                         if ov is None:
                             raise AnalysisError('cannot normalise the companion write `%s` in %s' % (U(other)[:60], f.qualname))
@@ -449,6 +450,25 @@ def check_footer(ctx, ht, rule, select=lambda f: True):
             ctx.fail(rule, f, enclosing_stmt(call), 'footer order: ' + text, line=call.lineno, key_extra='order')
         elif verdict == 'unknown':
             raise AnalysisError('footer order in %s: %s' % (f.qualname, text))
+
+
+def _exclusive(a, b, stop):
+    """a and b lie in different arms of one `if` below ``stop``: they never run in the same iteration."""
+    chain = []
+    p, child = parent(a), a
+    while p is not None and p is not stop:
+        if isinstance(p, ast.If):
+            chain.append((p, 'body' if any(child is x for x in p.body) else 'orelse'))
+        child, p = p, parent(p)
+    p, child = parent(b), b
+    while p is not None and p is not stop:
+        if isinstance(p, ast.If):
+            arm = 'body' if any(child is x for x in p.body) else 'orelse'
+            for (q, arm_a) in chain:
+                if q is p and arm_a != arm:
+                    return True
+        child, p = p, parent(p)
+    return False
 
 
 def _in(node, body):
